@@ -286,6 +286,24 @@ class CSA:
             if name in ('panic', 'unreachable'):
                 return []
             return [(st, env, 'v', ('unk', name + '!'))]
+        if name == 'matches' and e.get('scrutinee') is not None:
+            out = []
+            for s1, e1, kind, v in self.ev(e['scrutinee'], st, env):
+                if kind != 'v':
+                    out.append((s1, e1, kind, v))
+                    continue
+                ms = self.match_pat(e['pat'], v, s1.clone(), e1)
+                definite = False
+                for verdict, s2, e2 in ms:
+                    if e.get('guard') is not None:
+                        out.append((s2, e1, 'v', ('unkbool',)))
+                        continue
+                    out.append((s2, e1, 'v', ('bool', True)))
+                    if verdict == 'yes':
+                        definite = True
+                if not definite:
+                    out.append((s1, e1, 'v', ('bool', False)))
+            return out
         raise Undecided('CSA: macro %s! at line %s' % (name, e.get('line')))
 
     def ev_binary(self, e, st, env):
